@@ -7,12 +7,21 @@ import props_misc as PM
 sys.path.insert(0, os.path.join(lib.ROOT, "translate"))
 import gen_factory_readers
 
-CONFIGS = [(None, None), ("React.createElement", "React.Fragment"), ("h", "Fragment"), ("a.b.c", "a.F"), ("A.h", None), (None, "B"), ("C", "D.E")]
+CONFIGS = [(None, None), ("React.createElement", "React.Fragment"), ("h", "Fragment"), ("a.b.c", "a.F"), ("A.h", None), (None, "B"), ("C", "D.E"),
+           # configured factories that are expressions but not dotted names
+           ("ui['h']", "ui?.F"), ("(0, ui.h)", None), ("a || b", "c ?? d"), ("ui.h.bind(null)", "D")]
 
 
 def idents_of(expr):
-    """identifiers occurring as expressions in a member chain `a.b.c` -> [a]"""
-    return None if expr is None else [expr.split(".")[0]]
+    """identifiers of a factory expression that the implementation can mark as used: swc's `apply_mark` gives the top-level mark to
+    the ROOT of an identifier / member chain (`a.b.c`, `ui['h']` -> [root]) and to nothing else (`a || b`, `ui?.F`, `(0, ui.h)`,
+    `f.bind(null)` -> []), so no declared binding can match the other identifiers.  (The property only says which reports MAY disappear.)"""
+    if expr is None:
+        return None
+    m = re.match(r"^\s*([A-Za-z_$][\w$]*)((\s*\.\s*[A-Za-z_$][\w$]*)|(\s*\[\s*'[^']*'\s*\]))*\s*$", expr)
+    if not m or m.group(1) in ("null", "this", "true", "false", "undefined"):
+        return []
+    return [m.group(1)]
 
 
 def enc_ol(l):
@@ -20,11 +29,11 @@ def enc_ol(l):
 
 
 def gen_program(rng):
-    names = ["A", "B", "C", "D", "h", "Fragment", "React", "a"]
+    names = ["A", "B", "C", "D", "h", "Fragment", "React", "a", "ui", "b", "c", "d"]
     decl = rng.sample(names, rng.randint(1, 5))
     used = [n for n in decl if rng.random() < 0.3]
-    pf = rng.choice([None, None, "A.h", "h", "Z.q"])
-    pg = rng.choice([None, None, "B", "Fragment", "Z.F"])
+    pf = rng.choice([None, None, "A.h", "h", "Z.q", "this.h", "null"])
+    pg = rng.choice([None, None, "B", "Fragment", "Z.F", "null", "this.F"])
     he, hf = rng.random() < 0.6, rng.random() < 0.4
     lines = []
     style = rng.randrange(4)
@@ -123,10 +132,10 @@ def c18(ctx):
             eff = set()
             if p["he"]:
                 e = p["pf"] or c["jsx"]
-                if e: eff.add(e.split(".")[0])
+                if e: eff.update(idents_of(e))
             if p["hf"]:
                 e = p["pg"] or c["jsxfrag"]
-                if e: eff.add(e.split(".")[0])
+                if e: eff.update(idents_of(e))
             if not removed <= eff:
                 ctx.violation("C18.removes-non-factory-ident-or-ignores-pragma", "no-unused-vars dropped %s; effective factory identifiers are %s" % (sorted(removed - eff), sorted(eff)),
                               {"case": c, "impl_unused": got, "expected_unused": want})
@@ -160,6 +169,15 @@ def c18(ctx):
         for (cf, cg) in CONFIGS:
             dcases.append(dict({"src": p["src"], "media": "tsx", "rules": "all", "jsx": cf, "jsxfrag": cg}, **ev))
         dmeta.append((k, p["src"], "tsx", 1.0 if not (p["pf"] and p["pg"]) else 0.2))
+    # several diagnostics of another rule that tie on (start, code), in files whose total number of diagnostics moves across every
+    # small count when the configuration removes the `React` report (an unstable sort orders ties by the length of the list)
+    for nd in range(8, 72):
+        src = ("// deno-lint-ignore zzz-e zzz-a zzz-d zzz-b zzz-c\nimport React from 'react';\nvoid (<div/>);\n" + "debugger;\n" * (nd - 6)
+               + "// deno-lint-ignore-file-x\n// deno-lint-ignore qq-2 qq-1 qq-3\nlet u9 = 1;\n")
+        k = len(dcases)
+        for (cf, cg) in CONFIGS:
+            dcases.append({"src": src, "media": "tsx", "rules": "all", "jsx": cf, "jsxfrag": cg})
+        dmeta.append((k, src, "tsx", 1.0))
     res = lib.run_vh("lint", dcases, per_case_timeout=5)
     nontriv2 = set()
     nbad = collections.Counter()
@@ -195,7 +213,7 @@ def c18(ctx):
                 allowed = set()
                 for e in (cf, cg):
                     if e:
-                        allowed.add(e.split(".")[0])
+                        allowed.update(idents_of(e))
                 names = set(re.match(r"`([^`]*)`", x[3]).group(1) for x in removed)
                 if not names <= allowed:
                     ctx.violation("C18.removes-non-factory-ident", "removed reports for %s, factory idents %s" % (sorted(names), sorted(allowed)), {"base": dcases[k], "variant": dcases[k + j]})
